@@ -947,6 +947,13 @@ struct Value {
     }
 
     void Merge(const Value &val) {
+        if (this == &val) {
+            // Appending relocates the items that are being read: a value is merged into itself from a copy.
+            Value tmp{val};
+            Merge(Memory::Move(tmp));
+            return;
+        }
+
         if (isUndefined()) {
             reset(); // A moved-from scalar keeps its old payload.
             setTypeToArray();
